@@ -1,4 +1,80 @@
-import Cpl.Model.Evolve1D
+import Cpl.Spec.Ring
+import Cpl.Lemmas.Evolve1D
+import Cpl.Lemmas.Memo1D
+
+/-!
+# C03 — 1D memoization is transparent (True and 'recursive' equal False)
+
+`PureVal rule f`: the rule's *result* depends only on the neighbourhood contents (its state may evolve).
+Ring size arbitrary (no power-of-two assumption), `1 ≤ r ≤ N` including blocks wider than the ring.
+-/
+
 namespace Cpl.C03
-theorem placeholder : True := trivial
+open Cpl Cpl.Spec
+
+variable {σ α : Type}
+
+/-- **All three modes compute the same rows**: the given history followed by the pure ring updates. -/
+theorem evolveFixed_rows_pure [DecidableEq α] [Inhabited α] (rule : Rule1 σ α) (f : List α → α)
+    (hp : PureVal rule f) (mode : Mode) (hm : mode ≠ .bad) (hist : List (List α)) (init : List α)
+    (hlast : hist.getLast? = some init) (T : Nat) (hT : 1 ≤ T) (r : Nat) (h1 : 1 ≤ r)
+    (h2 : r ≤ init.length) (s : σ) :
+    (evolveFixed hist T rule r mode s).map Prod.fst = .ok (hist ++ pureRun f r (T - 1) init) := by
+  sorry
+
+/-- **memoize=True is transparent.** -/
+theorem evolve_memo_eq_plain [DecidableEq α] [Inhabited α] (rule : Rule1 σ α) (f : List α → α)
+    (hp : PureVal rule f) (hist : List (List α)) (init : List α) (hlast : hist.getLast? = some init)
+    (T : Nat) (hT : 1 ≤ T) (r : Nat) (h1 : 1 ≤ r) (h2 : r ≤ init.length) (s : σ) :
+    (evolveFixed hist T rule r .memo s).map Prod.fst = (evolveFixed hist T rule r .plain s).map Prod.fst := by
+  sorry
+
+/-- **memoize='recursive' is transparent**, for every ring size. -/
+theorem evolve_rec_eq_plain [DecidableEq α] [Inhabited α] (rule : Rule1 σ α) (f : List α → α)
+    (hp : PureVal rule f) (hist : List (List α)) (init : List α) (hlast : hist.getLast? = some init)
+    (T : Nat) (hT : 1 ≤ T) (r : Nat) (h1 : 1 ≤ r) (h2 : r ≤ init.length) (s : σ) :
+    (evolveFixed hist T rule r .recursive s).map Prod.fst = (evolveFixed hist T rule r .plain s).map Prod.fst := by
+  sorry
+
+/-- **Callable timesteps**: the memoized dynamic evolutions return the rows of the unmemoized one
+    (same fuel, same predicate). -/
+theorem evolveDynamic_rows_mode_indep [DecidableEq α] [Inhabited α] (rule : Rule1 σ α) (f : List α → α)
+    (hp : PureVal rule f) (mode : Mode) (hm : mode ≠ .bad) (fuel : Nat) (hist : List (List α))
+    (init : List α) (hlast : hist.getLast? = some init) (pred : List (List α) → Nat → Bool) (r : Nat)
+    (h1 : 1 ≤ r) (h2 : r ≤ init.length) (s : σ) :
+    (evolveDynamic fuel hist pred rule r mode s).map (·.map Prod.fst)
+      = (evolveDynamic fuel hist pred rule r .plain s).map (·.map Prod.fst) := by
+  sorry
+
+/-- An unsupported option is rejected as soon as a step would be taken (and only then). -/
+theorem bad_mode_rejected [DecidableEq α] [Inhabited α] (rule : Rule1 σ α) (hist : List (List α))
+    (init : List α) (hlast : hist.getLast? = some init) (T : Nat) (r : Nat) (s : σ) :
+    (2 ≤ T → evolveFixed hist T rule r .bad s = .error .Exception) ∧
+    evolveFixed hist 1 rule r .bad s = .ok (hist, s) := by
+  sorry
+
+/-! ## Mode selection is by value -/
+
+/-- The Python values `memoize` may carry, as far as the model needs them. -/
+inductive PyVal where
+  | bool (b : Bool) | str (s : String) | none | int (i : Int)
+  deriving DecidableEq
+
+/-- `memoize == "recursive"` / `is True` / `is False`, anything else is unsupported. -/
+def parseMode : PyVal → Mode
+  | .bool false => .plain
+  | .bool true => .memo
+  | .str s => if s = "recursive" then .recursive else .bad
+  | _ => .bad
+
+/-- Any string *equal to* `"recursive"` selects the recursive mode, however it was built. -/
+theorem parseMode_by_value (s : String) (h : s = "recursive") : parseMode (.str s) = .recursive := by
+  subst h; rfl
+example : parseMode (.str (String.join ["recur", "sive"])) = .recursive := by decide
+example : parseMode (.str "Recursive") = .bad ∧ parseMode .none = .bad ∧ parseMode (.int 2) = .bad := by decide
+
+/-! ## Non-vacuity -/
+example : PureVal (recorder (fun n : List Int => n.foldl (· + ·) 0)) (fun n => n.foldl (· + ·) 0) :=
+  fun _ _ _ _ => rfl
+
 end Cpl.C03
